@@ -65,7 +65,7 @@ def run(ctx):
         for st in parse_dump(res.dump_path, only='pc = "ret"'):
             s, m = st['shape'], st['res']
             n += 1
-            tx, ty = rnd.choice([(0, 0), (3, -5), (1000, 77), (-10000, 4096)])
+            tx, ty = rnd.choice([(0, 0), (3, -5), (1000, 77), (-10000, 4096), (10 ** 6, -3 * 10 ** 6)])
             fr = geom.Frame(2, 1.0, float(tx), float(ty), rnd.randint(0, 5))
             want = [m['box'][0] + tx, m['box'][1] + tx, m['box'][2] + ty, m['box'][3] + ty]
             try:
@@ -111,7 +111,7 @@ def trace_validation(ctx, rnd):
             s = geomgen.compound(rnd, rnd.randint(1, 2), kinds=None, cmax=2 * U, smax=smax, small_dirs=(U > 4))
         if rnd.random() < 0.4:     # axis-aligned: extremes land exactly on the lattice, strict comparison
             s = force_axis(s, rnd)
-        tx, ty = rnd.choice([(0, 0), (3, -5), (1000, 77), (-10000, 4096)])
+        tx, ty = rnd.choice([(0, 0), (3, -5), (1000, 77), (-10000, 4096), (10 ** 6, -3 * 10 ** 6)])
         fr = geom.Frame(U, 1.0, float(tx), float(ty), rnd.randint(0, 5))
         try:
             region = geom.build(s, fr)
